@@ -190,6 +190,7 @@ type FuncRun struct {
 	obls     []*Obligation
 	scout    int
 	curFrame *Frame
+	realQuot map[string][2]string // real-valued definitions known to be an integer over a positive constant
 	curPos   token.Pos
 	wsStack  []*WriteSet
 	names    map[string]int // obligation base name -> count
